@@ -170,22 +170,30 @@ PAIRS = [
 def keys_leg(rep, tier, wd):
     """ConfigKeys.tla: assigning one key never changes another.  All 64 ways three sources can assign two different keys of one
     backend, both orders on the command line when it assigns both."""
-    r = lib.tlc("config", "ConfigKeys", "keys.cfg", workers=2)
+    r = lib.tlc("config", "MC_ConfigKeys", "keys.cfg", workers=2)
     lib.tlc_expect_ok(r, "ConfigKeys")
     rep.add_tlc("ConfigKeys", r)
-    rn = lib.tlc("config", "ConfigKeys", "keys_neg.cfg", workers=2, coverage=False)
+    rn = lib.tlc("config", "MC_ConfigKeys", "keys_neg.cfg", workers=2, coverage=False)
     lib.tlc_expect_violation(rn, "a setter that also resets another key", "KeysIndependent")
     rep.extra["negative_models_refuted"] += 1
+    rep.extra["tlaps_keys"] = {"module": "spec/config/ConfigKeysProof.tla", "theorem": "Spec => []KeysIndependent for any set of keys",
+                               "obligations_proved": lib.tlaps("config", "ConfigKeysProof")}
     n = 0
     for b, k1, k2, v1, v2, unset, obs, base in PAIRS:
         names, vals = {"k1": k1, "k2": k2}, {"k1": v1, "k2": v2}
         for c in r.printed["CASE"]:
             sets = {s: sorted(ks) for s, ks in c["sets"].items()}
             orders = [("k1", "k2"), ("k2", "k1")] if len(sets["cli"]) == 2 else [tuple(sets["cli"])]
-            for order in orders:
+            # when the source attribute assigns both keys they are written on two items, or STACKED on one item (either order)
+            layouts = ["split", "stacked12", "stacked21"] if len(sets["attr"]) == 2 else ["split"]
+            for order, layout in [(o, l) for o in orders for l in layouts]:
                 file_assign = [(b, names[k].split(".", 1)[1], '"%s"' % vals[k]["file"]) for k in sets["file"]]
                 cli = list(base) + ["%s=%s" % (names[k], vals[k]["cli"]) for k in order]
-                attrs = ["#[diplomat::config(%s = \"%s\")]\npub struct Cfg%s;\n" % (names[k], vals[k]["attr"], k.upper()) for k in sets["attr"]]
+                if layout == "split":
+                    attrs = ["#[diplomat::config(%s = \"%s\")]\npub struct Cfg%s;\n" % (names[k], vals[k]["attr"], k.upper()) for k in sets["attr"]]
+                else:
+                    ks = ("k1", "k2") if layout == "stacked12" else ("k2", "k1")
+                    attrs = ["".join("#[diplomat::config(%s = \"%s\")]\n" % (names[k], vals[k]["attr"]) for k in ks) + "pub struct CfgBoth;\n"]
                 eff = {k: (None if c["eff"][k] == "<unset>" else vals[k][c["eff"][k]]) for k in ("k1", "k2")}
                 dflt = unset(eff)
                 if eff["k1"] is None and dflt["k1"] is None:
@@ -200,7 +208,7 @@ def keys_leg(rep, tier, wd):
                                   {"expected": want, "observed": got, "cli": cli, "file": toml_file(file_assign, "snake") if file_assign else None,
                                    "attrs": attrs, "stderr": res["stderr"][-500:]})
                 if sum(1 for s in sets.values() if s) >= 2:
-                    rep.nontriv("keys|%s|%s|%s" % (b, json.dumps(sets, sort_keys=True), order))
+                    rep.nontriv("keys|%s|%s|%s|%s" % (b, json.dumps(sets, sort_keys=True), order, layout))
     rep.extra["two_key_runs"] = n
     return n
 
